@@ -9,6 +9,8 @@ import (
 	"sort"
 	"strings"
 	"sync"
+	"testing/synctest"
+	"time"
 
 	"bsim/core"
 	"bsim/model"
@@ -75,6 +77,9 @@ func NewEnv(c *core.Ctx, sc sched.Config, analysisWorkers int) *Env {
 func (e *Env) Finish() {
 	e.S.ClearHooks()
 	e.S.Drain()
+	// goleveldb keeps a pool drainer alive for up to a second after Close: let simulated time pass
+	time.Sleep(3 * time.Second)
+	synctest.Wait()
 	e.aq.Close()
 	bleve.SwapAnalysisQueue(e.oldq)
 	e.S.Uninstall()
@@ -237,6 +242,12 @@ func ReadState(idx bleve.Index, ids, keys []string) (*State, error) {
 
 // CheckState compares a read-out with the map model; it returns one line per mismatch.
 func CheckState(st *State, m *model.MapModel, ids, keys []string, rich bool) []string {
+	return CheckStateN(st, m, ids, keys, rich, false)
+}
+
+// CheckStateN is CheckState for an index whose "items" array may be mapped as nested: the stored fields of nested
+// elements live in the nested sub-documents and are not part of Document(id).
+func CheckStateN(st *State, m *model.MapModel, ids, keys []string, rich, nested bool) []string {
 	var bad []string
 	if st.Count != uint64(len(m.Docs)) {
 		bad = append(bad, fmt.Sprintf("DocCount=%d, model has %d live ids", st.Count, len(m.Docs)))
@@ -251,6 +262,13 @@ func CheckState(st *State, m *model.MapModel, ids, keys []string, rich bool) []s
 			continue
 		}
 		want := model.MakeDoc(id, v, rich).ExpectStored()
+		if nested {
+			for f := range want {
+				if strings.HasPrefix(f, "items.") {
+					delete(want, f)
+				}
+			}
+		}
 		if got == nil {
 			bad = append(bad, fmt.Sprintf("Document(%s) = nil, model: %v", id, want))
 		} else if got.String() != want.String() {
